@@ -41,13 +41,20 @@ structure Config where
   randomValues : Bool := false
   deriving Inhabited
 
+/-- the `maybe` flag of the busy interval worker `w` currently holds for task `t`
+    (`w._busy_intervals[t]`; `dflt` if there is none) -/
+def State.busyFlag (st : State) (w t : String) (dflt : Bool) : Bool :=
+  match (st.busyOf w).find? (·.1 == t) with
+  | some e => e.2
+  | none => dflt
+
 /-- productivity × busy time of each required worker of `t` (solver.py:250-257) -/
 def workTerms (st : State) (t : Task) : List Term :=
   (st.reqsOf t.name).filterMap (fun r =>
     match st.findWorker r.worker with
     | none => none
     | some w =>
-      let m := match (st.busyOf w.name).find? (·.1 == t.name) with | some e => e.2 | none => r.maybe
+      let m := st.busyFlag w.name t.name r.maybe
       some (Term.mul (numT w.prod) (.sub (bE w.name t.name m) (bS w.name t.name m))))
 
 /-- work amount of one task (solver.py:246-261) -/
